@@ -144,7 +144,7 @@ int main(int argc, char **argv) {
         std::map<std::string, std::string> kv;
         for (auto &p : vr::split(A.get("replay-case"), ';')) { auto eq = p.find('='); if (eq != std::string::npos) kv[p.substr(0, eq)] = p.substr(eq + 1); }
         R.worker_id = 0;
-        if (kv["T"] == "int") dispatch_one<int>(R, "int", kv); else if (kv["T"] == "int16_t") dispatch_one<std::int16_t>(R, "int16_t", kv); else if (kv["T"] == "int8_t") dispatch_one<std::int8_t>(R, "int8_t", kv); else if (kv["T"] == "long") dispatch_one<long>(R, "long", kv); else dispatch_one<BigInt>(R, "cpp_int", kv);
+        if (kv["T"] == "int") dispatch_one<int>(R, "int", kv); else if (kv["T"] == "int16_t") dispatch_one<std::int16_t>(R, "int16_t", kv); else if (kv["T"] == "int8_t") dispatch_one<std::int8_t>(R, "int8_t", kv); else if (kv["T"] == "unsigned") dispatch_one<unsigned int>(R, "unsigned", kv); else if (kv["T"] == "uint16_t") dispatch_one<std::uint16_t>(R, "uint16_t", kv); else if (kv["T"] == "uint64_t") dispatch_one<std::uint64_t>(R, "uint64_t", kv); else if (kv["T"] == "long") dispatch_one<long>(R, "long", kv); else dispatch_one<BigInt>(R, "cpp_int", kv);
         if (R.vf) fclose(R.vf);
         uint64_t nv = R.sh->nviol.load();
         std::string fn = R.viol_prefix + ".0";
@@ -173,8 +173,9 @@ int main(int argc, char **argv) {
                 if (u.type == 0) gcd_case<int>(R, tn[0], u.x, b); else if (u.type == 1) gcd_case<long>(R, tn[1], u.x, b); else gcd_case<BigInt>(R, tn[2], u.x, b); } }
         else if (u.fn == 1) { for (long a = -2 * u.x; a <= 2 * u.x; ++a) {
                 if (u.type == 0) inv_case<int>(R, tn[0], a, u.x); else if (u.type == 1) inv_case<long>(R, tn[1], a, u.x); else inv_case<BigInt>(R, tn[2], a, u.x); } }
-        else if (u.fn == 3) { if (u.type == 0) { vecfp_unit<int>(R, tn[0], 46337, (int) u.x); vecfp_unit<std::int16_t>(R, "int16_t", 32749, (int) u.x); vecfp_unit<std::int8_t>(R, "int8_t", 127, (int) u.x); vecfp_unit<std::int16_t>(R, "int16_t", 181, (int) u.x); }
-            else if (u.type == 1) vecfp_unit<long>(R, tn[1], 2147483647L, (int) u.x); else vecfp_unit<BigInt>(R, tn[2], 2147483647L, (int) u.x); }
+        else if (u.fn == 3) { if (u.type == 0) { vecfp_unit<int>(R, tn[0], 46337, (int) u.x); vecfp_unit<std::int16_t>(R, "int16_t", 32749, (int) u.x); vecfp_unit<std::int8_t>(R, "int8_t", 127, (int) u.x); vecfp_unit<std::int16_t>(R, "int16_t", 181, (int) u.x);
+                vecfp_unit<unsigned int>(R, "unsigned", 46337, (int) u.x); vecfp_unit<std::uint16_t>(R, "uint16_t", 251, (int) u.x); }      // unsigned coordinate types: nothing may rely on going negative
+            else if (u.type == 1) { vecfp_unit<long>(R, tn[1], 2147483647L, (int) u.x); vecfp_unit<std::uint64_t>(R, "uint64_t", 2147483647L, (int) u.x); } else vecfp_unit<BigInt>(R, tn[2], 2147483647L, (int) u.x); }
         else { for (long p = u.x; p < u.x + 2000 && p <= pl.prime_max; ++p) {
                 if (u.type == 0) prime_case<int>(R, tn[0], p); else if (u.type == 1) prime_case<long>(R, tn[1], p); else prime_case<BigInt>(R, tn[2], p); } }
     };
